@@ -69,7 +69,8 @@ func genCluster(r *mrand.Rand, prop, tier string) simcore.Case {
 	}
 	cs.Cfg["nkeys"] = int64(1 + r.IntN(6))
 	cs.Cfg["bsize"] = pick(1, 2, 3, 5)
-	cs.Cfg["bdelay_us"] = pick(0, 1000, 5000, 50000)
+	cs.Cfg["bdelay_us"] = pick(0, 1000, 5000, 50000, 250000, 600000)
+	cs.Cfg["hsleep_ms"] = pick(0, 0, 0, 100, 400) // operator back-pressure in simulated time
 	if cs.Cfg["bsize"] > 1 && cs.Cfg["bdelay_us"] == 0 {
 		// without a time-out a partial batch waits for ever once the source has
 		// caught up: that is a configuration without progress, not a finding
@@ -795,6 +796,19 @@ func (w *cluWorld) checkStreams() {
 					return
 				}
 				lastWM, haveWM = it.wm, true
+				// a runner with a single operator forwards everything on this one stream, in
+				// forwarding order: its watermark is then exactly one nanosecond below the
+				// largest timestamp of the records ahead of it (Go's zero time before any)
+				if w.singleStream(srID) {
+					want := time.Time{}.Add(-time.Nanosecond)
+					if haveTS {
+						want = maxTS.Add(-time.Nanosecond)
+					}
+					if !it.wm.Equal(want) {
+						c.Violate(prop+"/watermark-value", "stream %s position %d: watermark %s, the largest timestamp forwarded ahead of it gives %s", k, pos, it.wm.UTC().Format(time.RFC3339Nano), want.UTC().Format(time.RFC3339Nano))
+						return
+					}
+				}
 				// "follows closely" as bounded liveness: a watermark delivered more than 30
 				// simulated seconds after the runner's last record was delivered (on any
 				// stream) is exactly one nanosecond below the largest timestamp it keyed
@@ -1044,4 +1058,15 @@ func hasOp(ops []simcore.Op, k string) bool {
 		}
 	}
 	return false
+}
+
+// singleStream: the runner delivered to exactly one operator during the whole run.
+func (w *cluWorld) singleStream(srID string) bool {
+	n := 0
+	for k := range w.streams {
+		if strings.HasPrefix(k, srID+">") {
+			n++
+		}
+	}
+	return n == 1
 }
